@@ -151,6 +151,8 @@ def one_document(ctx, schema, holder, dump, sdl, enum_kind, label, text, variabl
         site = raise_site(e)
         ctx.stat(stream + ":validate-raises:" + type(e).__name__)
         ctx.nontrivial((sdl, text))
+        _sample(ctx, stream, {"stream": stream, "label": label, "document": text[:400], "variables": variables,
+                              "validate": "RAISES %s in %s" % (type(e).__name__, site)})
         ctx.fail("validate-raises:%s:%s" % (type(e).__name__, site),
                  "validate_ast raises %s (in %s) instead of returning its list of errors" % (type(e).__name__, site),
                  dict(base, small=shrink_raise(schema, text, type(e), site)))
@@ -158,6 +160,8 @@ def one_document(ctx, schema, holder, dump, sdl, enum_kind, label, text, variabl
     if v.errors:
         ctx.stat(stream + ":rejected")
         ctx.nontrivial((sdl, text))
+        _sample(ctx, stream, {"stream": stream, "label": label, "document": text[:400], "variables": variables,
+                              "validate": "rejected: %d error(s), first: %s" % (len(v.errors), str(v.errors[0])[:120])})
         return
     ctx.stat(stream + ":accepted")
     if label:
@@ -193,8 +197,22 @@ def one_document(ctx, schema, holder, dump, sdl, enum_kind, label, text, variabl
                 return
             if c.impl["data"]:
                 ctx.nontrivial((sdl, text, c.seed))
+        if k == 0:
+            _sample(ctx, stream, {"stream": stream, "label": label, "document": text[:400], "variables": variables,
+                                  "validate": "accepted", "seed": c.seed, "execution": json.dumps(c.impl)[:300]})
         if lean_batch is not None:
             lean_batch.append((dump, c, label))
+
+
+_SAMPLED = {}
+
+
+def _sample(ctx, stream, obj, per_stream=2):
+    """a few written-out cases per stream and verdict"""
+    key = (id(ctx), stream, obj["validate"].split(":")[0].split(" ")[0])
+    if _SAMPLED.get(key, 0) < per_stream:
+        _SAMPLED[key] = _SAMPLED.get(key, 0) + 1
+        ctx.sample(obj, cap=24)
 
 
 def shrink_raise(schema, text, cls, site):
